@@ -19,7 +19,7 @@ PROPS = {
     },
     "C20": {
         "module": "CqlVerif.Props.C20",
-        "claim": "theorems by kernel evaluation over behaviour tables regenerated from the real option parsers on every run (every letter-case variant of every documented spelling + near-misses): names select what they denote, are injective, unknown names rejected; Model/Config mirrors the start-up validation order",
+        "claim": "start_only_if_consistent (for every configuration: Run proceeds only if names known, backend given, heartbeat < idle timeout, >= 1 connection, version <= max version, peers with addresses / tokens) over Model/Config; theorems by kernel evaluation over behaviour tables regenerated from the real option parsers on every run (every letter-case variant of every documented spelling + near-misses): names select what they denote, are injective, unknown names rejected; Model/Config mirrors the start-up validation order",
         "note": "trusted: Lean kernel, the tabulator (calls the real functions through verif hooks), documented-name table in Spec/Names.lean; kong/yaml parsing is library behaviour: the Run-level refusal is tied to Model/Config.validate by the cfg stream",
         "technique": "Lean 4 kernel-checked table theorems over regenerated behaviour tables + differential",
         "gens": ["config"],
@@ -155,7 +155,7 @@ PROPS["C06"] = {
     "gens": ["lexer"],
     "streams": [{"name": "lex", "quick": 4000, "thorough": 400000}, {"name": "idem", "quick": 6000, "thorough": 600000}],
     "shrink": False,
-    "claim": "Lean theorems over the regenerated scanner tables + hand-written classifier model, for every token stream and every fuel: unparseable_false (error => not idempotent, by induction through all 25 parser functions), total, select_idempotent, ddl_use_not_idempotent, counter_batch_not_idempotent, if_clause_not_idempotent; soundness w.r.t. the documented rule, plain-mutation completeness and case/whitespace/terminator invariance are decided by the idem stream's ground-truth oracle (statements generated from a CQL grammar with truth attached by construction) - they are not yet theorems (classify_sound is work in progress, see DESIGN.md)",
+    "claim": "Lean theorem no_verdict_dropped (for every token stream: verdict idempotent => no function term the classifier parsed, at any nesting depth and in every clause and batch child, was a call of now()/uuid(); ghost flag + preservation lemmas through all 30 parser functions); Lean theorems over the regenerated scanner tables + hand-written classifier model, for every token stream and every fuel: unparseable_false (error => not idempotent, by induction through all 25 parser functions), total, select_idempotent, ddl_use_not_idempotent, counter_batch_not_idempotent, if_clause_not_idempotent; soundness w.r.t. the documented rule, plain-mutation completeness and case/whitespace/terminator invariance are decided by the idem stream's ground-truth oracle (statements generated from a CQL grammar with truth attached by construction) - they are not yet theorems (classify_sound is work in progress, see DESIGN.md)",
     "note": "partial: the AST-level soundness theorem is not proved yet; what is proved holds for arbitrary bytes. Trusted: Lean kernel, the goto-program translator + scanner interpreter (validated against the real lexer.next() on every run), hand-written parser model (validated against parser.IsQueryIdempotent on every run), the generator's ground truth",
     "rule": "lex: the repo's own test strings, keyword case variants, truncations / single-byte mutations / random strings over a token-heavy alphabet incl. NUL, 0xFF and UTF-8, generated statements in random case/whitespace variants; compared: token kinds, end positions, identifier text. idem: statements from a type-directed CQL generator (INSERT incl. JSON, UPDATE, DELETE, BATCH logged/unlogged/counter, USING, WHERE relations of every shape, IF, nested list/set/map/UDT/tuple/cast/function terms to depth 4, system and user now()/uuid()), each with 3 meaning-preserving variants, plus truncated/mutated statements; oracles: unsound / plain-rejected / variant-changes-verdict / error-but-idempotent / panic; distinct = distinct texts",
     "trusted_base": [KERNEL, DRIVER, HARNESS, "Gen/LexTables.lean regenerated from parser/lexer.go by partial evaluation of the ragel goto program", "Model/Lexer.lean (60-line interpreter), Model/Parser.lean hand-written"],
@@ -226,7 +226,7 @@ PROPS["C17"] = {
     "gens": ["panics"],
     "streams": [{"name": "hostile", "quick": 500, "thorough": 20000}],
     "shrink": False,
-    "claim": "Lean theorems: sites_justified / lexer_sites (every partial operation - index, slice, single-value type assertion, explicit panic, integer division - in proxy, proxycore, codecs, parser, with the guards on the way to it, regenerated from the typed AST of /repo on every run, has a justification; kernel-evaluated), identifier_no_panic, queryHosts_no_panic, queryHosts_hosts_nonempty, leastBusy_no_panic, fillChildren_no_panic, countArg_no_panic, planNext_no_panic, skipPositionalValues_suffix (the guarded operations cannot panic, for every input, on explicit-panic models), malformed_closed, routed_wellformed, isolation over Model/Hostile.clientStream (header + body decoders of every request opcode); tied to the code by the hostile stream: the real proxy in a child process facing generated client byte streams and hostile backends with a canary client, outcomes compared with the model",
+    "claim": "Lean theorems: sites_justified / lexer_sites / stores_typed (every partial operation - index, slice, single-value type assertion, explicit panic, integer division - in proxy, proxycore, codecs, parser, with the guards on the way to it, regenerated from the typed AST of /repo on every run, has a justification; kernel-evaluated), identifier_no_panic, queryHosts_no_panic, queryHosts_hosts_nonempty, leastBusy_no_panic, fillChildren_no_panic, countArg_no_panic, planNext_no_panic, skipPositionalValues_suffix (the guarded operations cannot panic, for every input, on explicit-panic models), malformed_closed, routed_wellformed, isolation over Model/Hostile.clientStream (header + body decoders of every request opcode); tied to the code by the hostile stream: the real proxy in a child process facing generated client byte streams and hostile backends with a canary client, outcomes compared with the model",
     "note": "partial: nil dereferences and panics inside the pinned libraries cannot be inventoried syntactically - they are reached only through the hostile stream's generators (finding: RESULT(Void) to a topology query); the justification table's invariant / notPeerDriven entries are reviewed claims, not theorems; memory exhaustion by declared lengths above 16 MiB is out of the property's scope. Trusted: Lean kernel, extractor (go/types), hand-written models, harness",
     "rule": "hostile: each case starts the real proxy in a child process (2 backend nodes, heart-beats on) with a canary client connected; client family: hostile strings (lone quote, empty, unbalanced, NUL, non-UTF-8, long) in every string-typed field x 5 max versions x 5 client versions, generated multi-frame byte streams of every request opcode with mutated flags / lengths (0, short, +k, negative, 16 MiB) / truncated or corrupted bodies / opcodes / version bytes / direction, frames up to 16 MiB; backend family: 80 misbehaviours (wrong stream ids, duplicates, short / garbage ERROR and RESULT bodies, every flag, wrong opcodes / direction / version, negative length, truncated, unsolicited frames and events, UNPREPARED for unknown ids) and 19 malformed system.local / system.peers answers on control reconnect; verdict: process alive, canary (handled + forwarded query, before/after, plus a late joiner) answered correctly, attacker outcome sequence = model; distinct = distinct attack",
     "trusted_base": [KERNEL, DRIVER, HARNESS, "Gen/PanicSites.lean regenerated by `vh extract panics` (go/packages + go/types over /repo)", "Spec/PanicTable.lean hand-written justifications", "Model/Hostile.lean hand-written"],
